@@ -901,9 +901,51 @@ class Walker:
                 if name not in saved_env:
                     del self.env[name]
 
+    def for_literal(self, st, elts):
+        """A loop over a literal tuple / list is unrolled: the target is bound to each element in turn.  `if c: ...; break`
+        puts the rest of the iteration and all later iterations under `not c`; `if c: ...; continue` only the rest of
+        the iteration."""
+        def run(k):
+            if k == len(elts):
+                return
+            self.assign_target(st.target, self.ex(elts[k]), st)
+            blk(st.body, k)
+
+        def blk(stmts, k):
+            for i, s in enumerate(stmts):
+                last = s.body[-1] if isinstance(s, ast.If) and not s.orelse and s.body else None
+                if isinstance(last, (ast.Break, ast.Continue)):
+                    cond = self.ex(s.test)
+                    self.t.conds.append((cond, self.gen, s.lineno))
+                    saved = self.gen
+                    env0, bc0 = dict(self.env), dict(self.bind_ctx)
+                    self.gen = saved + (('pyif', cond, True),)
+                    self.block(s.body[:-1])
+                    if isinstance(last, ast.Continue):
+                        self.env, self.bind_ctx = dict(env0), dict(bc0)
+                        run(k + 1)
+                    self.env, self.bind_ctx = env0, bc0
+                    self.gen = saved + (('pyif', cond, False),)
+                    blk(stmts[i + 1:], k)
+                    self.gen = saved
+                    return
+                if isinstance(s, (ast.Break, ast.Continue)):
+                    if isinstance(s, ast.Continue):
+                        run(k + 1)
+                    return
+                if any(isinstance(n, (ast.Break, ast.Continue)) for n in ast.walk(s)
+                       if not isinstance(s, (ast.For, ast.While))):
+                    self.unsupported(s, "break / continue nested deeper than `if c: ...; break`")
+                self.stmt(s)
+            run(k + 1)
+        run(0)
+
     def for_(self, st):
         if st.orelse:
             self.unsupported(st, "for/else")
+        if isinstance(st.iter, (ast.Tuple, ast.List)) and 0 < len(st.iter.elts) <= 8 and \
+                not any(isinstance(e, ast.Starred) for e in st.iter.elts):
+            return self.for_literal(st, st.iter.elts)
         # iteration over an append-built list (or a zip of such lists)
         src = st.iter
         names_ = []
@@ -920,6 +962,13 @@ class Walker:
         key = None
         try:
             nit = ir.norm(it)
+            # enumerate(X) and range(len(X)) walk the same index space
+            if nit[0] == 'call' and nit[1] == ('name', 'enumerate') and len(nit[2]) == 1 and not nit[3]:
+                nit = ('idxspace', nit[2][0])
+            elif nit[0] == 'call' and nit[1] == ('name', 'range') and not nit[3] and (
+                    len(nit[2]) == 1 or len(nit[2]) == 2 and nit[2][0] == ('const', 0)) and \
+                    nit[2][-1][0] == 'call' and nit[2][-1][1] == ('name', 'len') and len(nit[2][-1][2]) == 1:
+                nit = ('idxspace', nit[2][-1][2][0])
             if any(x == ('name', 'self') for x in ir.walk(nit)) and \
                     not any(x[0] in ('sig', 'obj', 'acc', 'carry', 'final', 'listacc') for x in ir.walk(nit)):
                 key = (nit, self.gen)
@@ -954,7 +1003,7 @@ class Walker:
                 loop.bounds = (('const', 0), a[0]) if len(a) == 1 else (a[0], a[1])
             loop.reversed = rev
             if isinstance(st.target, ast.Name):
-                self.t.loops[lid] = loop
+                self.t.loops.setdefault(lid, loop)
                 self.bind_loopvar(st.target.id, ('idx', lid))
             else:
                 self.unsupported(st, "range loop with a destructuring target")
@@ -965,7 +1014,7 @@ class Walker:
             seq = core[2][0]
             loop = Loop(lid, 'enum', it, seq, st.lineno, names)
             loop.reversed = rev
-            self.t.loops[lid] = loop
+            self.t.loops.setdefault(lid, loop)
             self.bind_loopvar(st.target.elts[0].id, ('idx', lid))
             elem = self.elem_of(seq, lid)
             self.bind_pattern(st.target.elts[1], elem, lid)
@@ -973,7 +1022,7 @@ class Walker:
             kind = 'gen' if (core[0] == 'call') else 'seq'
             loop = Loop(lid, kind, it, core if kind == 'seq' else None, st.lineno, names)
             loop.reversed = rev
-            self.t.loops[lid] = loop
+            self.t.loops.setdefault(lid, loop)
             if kind == 'seq':
                 self.bind_pattern(st.target, self.elem_of(core, lid), lid)
             else:
